@@ -205,7 +205,8 @@ Definition parse_text (t : ty) (s : str) : outcome val :=
   | None =>
       match t with
       | TSlice e _ =>                       (* a slice of floats: element-wise, as the code does *)
-          l <- string_slice isp0 s ;; omap VList (map_out (parse_extra e) l)
+          (* blanks around a non-string element are trimmed (parse_string.go) *)
+          l <- string_slice isp0 s ;; omap VList (map_out (fun x => parse_extra e (trim_space x)) l)
       | TMap _ _ _ => Err e_unmodelled      (* maps with float components *)
       | _ => parse_extra t s
       end
